@@ -229,7 +229,7 @@ def make_plan(seed, tier):
             jobs.append(j)
         # W — wide and long: 16k single-word draws under contention (several 64 KiB-of-output boundaries of any
         # process-wide generator state fall inside the run)
-        for i in range(8):
+        for i in range(16):
             k = (16, 8)[i % 2]
             jobs.append(_job("W", rng, K=k, D=16384 // k, sizes=[6], types=("lut", "static")[(i // 2) % 2], preempt=PREEMPT[i % 4],
                              warm=rng.randint(0, 1), **{"yield": rng.randint(0, 1)}))
